@@ -1,6 +1,7 @@
 package h
 
 import (
+	"strings"
 	"regexp"
 	"time"
 
@@ -34,7 +35,7 @@ func C20_Jobs() []string {
 	for _, op := range []string{"Min", "Max", "Len", "ContainsInt", "ContainsStr", "ContainsPtr", "ContainsStruct"} {
 		out = append(out, "slice/"+op)
 	}
-	out = append(out, "regex/Email", "regex/UUID", "regex/URL", "regex/Match", "regex/MatchPatterns")
+	out = append(out, "regex/Email", "regex/UUID", "regex/URL", "regex/Match", "regex/MatchPatterns", "regex/EmailLabelLengths")
 	out = append(out, "bool/True", "bool/False", "bool/EQ")
 	return out
 }
@@ -384,9 +385,24 @@ func c20MatchPatterns() {
 	c20Verdict(z.String().Not().Match(re).Validate(&d), !c.want, "not_match")
 }
 
+// Email: every domain label has 1..63 characters (lengths around the bound, in every label position)
+func c20EmailLabels() {
+	n := []int{1, 2, 62, 63, 64, 65, 100}[v.Choice("label-len", 7)]
+	label := strings.Repeat("a", n)
+	addr := []string{"u@" + label + ".com", "u@sub." + label + ".org", "u@" + label, "u@x." + label}[v.Choice("position", 4)]
+	d := addr
+	c20Verdict(z.String().Email().Validate(&d), n <= 63, "email")
+	var p string
+	c20Verdict(z.String().Email().Parse(addr, &p), n <= 63, "email")
+}
+
 func c20Regex(kind string) {
 	if kind == "MatchPatterns" {
 		c20MatchPatterns()
+		return
+	}
+	if kind == "EmailLabelLengths" {
+		c20EmailLabels()
 		return
 	}
 	var cases []c20case
